@@ -118,6 +118,9 @@ func runC12One(cs *vrt.Case) {
 	if cs.Idx%19 == 7 {
 		c12Identity(cs, cs.Rng)
 	}
+	if cs.Idx%19 == 11 {
+		c12Pow2(cs, cs.Rng)
+	}
 	op := c12Ops[cs.Idx%len(c12Ops)]
 	w := c12Widths[(cs.Idx/len(c12Ops))%len(c12Widths)]
 	signed := (cs.Idx/(len(c12Ops)*len(c12Widths)))%2 == 0
@@ -533,5 +536,76 @@ func c12Identity(cs *vrt.Case, r *vrt.Rng) {
 		}
 		cs.Count("constant_identity_probes", 1)
 		cs.Key("identity", T, v0.Text(16), W.Text(16), op, fmt.Sprint(wFirst))
+	}
+}
+
+// c12Pow2: folded signed division and remainder by powers of two (and their
+// neighbours) with negative dividends that are not multiples of the divisor,
+// at the width whose constants are stored with their sign (int64):
+// truncation toward zero is what the run-time circuit does, a shift is not.
+func c12Pow2(cs *vrt.Case, r *vrt.Rng) {
+	for trial := 0; trial < 8; trial++ {
+		w := 64 // narrower negative constants are folded as unsigned values (known finding): their division is wrong before any shortcut
+		T := fmt.Sprintf("int%d", w)
+		k := r.Range(1, w-2)
+		b := new(big.Int).Lsh(big.NewInt(1), uint(k))
+		switch r.Intn(4) {
+		case 0:
+			b.Add(b, big.NewInt(1))
+		case 1:
+			b.Sub(b, big.NewInt(1))
+		}
+		a := r.Big(w - 1)
+		a.Neg(a)
+		if r.Intn(4) == 0 {
+			a = big.NewInt(int64(-r.Range(1, 9)))
+		}
+		if a.Sign() == 0 || b.Sign() == 0 {
+			continue
+		}
+		// only the quotient: the sign of a folded signed remainder is a known
+		// finding of its own (class %|signed)
+		op := "/"
+		lit := func(v *big.Int) string {
+			if v.Sign() < 0 {
+				return fmt.Sprintf("-%s(%s)", T, new(big.Int).Neg(v))
+			}
+			return fmt.Sprintf("%s(%s)", T, v)
+		}
+		pc := fmt.Sprintf("package main\n\nfunc main(x %s, y uint8) %s {\n\tv := %s %s %s\n\treturn v ^ x\n}\n", T, T, lit(a), op, lit(b))
+		pr := fmt.Sprintf("package main\n\nfunc main(x %s, y uint8, a %s, b %s) %s {\n\tv := a %s b\n\treturn v ^ x\n}\n", T, T, T, T, op)
+		desc := map[string]any{"P_const": pc, "P_run": pr, "a": a.String(), "b": b.String()}
+		cs.SetSample(desc)
+		cc, _, errC, panC := compileWithSSA(pc, nil, nil)
+		cr, _, errR, panR := compileWithSSA(pr, nil, nil)
+		if panC != nil || panR != nil || errC != nil || errR != nil {
+			cs.Count("rejected", 1)
+			continue
+		}
+		mod := new(big.Int).Lsh(big.NewInt(1), uint(w))
+		au := new(big.Int).Mod(a, mod)
+		inC := new(big.Int).Lsh(big.NewInt(0x5a), uint(w))
+		inR := new(big.Int).Set(inC)
+		inR.Or(inR, new(big.Int).Lsh(au, uint(w+8)))
+		inR.Or(inR, new(big.Int).Lsh(b, uint(2*w+8)))
+		oc, e1 := refc.EvalFlat(cc, []*big.Int{inC})
+		or, e2 := refc.EvalFlat(cr, []*big.Int{inR})
+		if e1 != nil || e2 != nil {
+			cs.Inconc(fmt.Sprint(e1, e2))
+			return
+		}
+		cs.Evals++
+		q, m := new(big.Int).QuoRem(a, b, new(big.Int)) // truncated toward zero, like Go and the circuit
+		truth := q
+		if op == "%" {
+			truth = m
+		}
+		truth = new(big.Int).Mod(truth, mod)
+		cs.Count("power_of_two_division_probes", 1)
+		if oc[0].Cmp(or[0]) != 0 {
+			cs.Violate("C12|folded-differs|signed-division-near-power-of-two|"+op, fmt.Sprintf("%s %s %s: folded %s, run-time circuit %s, arithmetic %s", lit(a), op, lit(b), oc[0].Text(16), or[0].Text(16), truth.Text(16)), map[string]any{"case": desc})
+			return
+		}
+		cs.Key("pow2", T, op, a.String(), b.String())
 	}
 }
